@@ -104,6 +104,19 @@ Theorem replay_into_batch_appends : forall s b,
 Proof. exact replay_into_batch. Qed.
 Print Assumptions replay_into_batch_appends.
 
+(* An open iterator is a snapshot: it yields the store as it was at NewIterator, whatever is written
+   meanwhile, and those writes take effect normally. Compaction is invisible. *)
+Theorem iterator_snapshot : forall s p st ws,
+  snd (step s (DbIterDuring p st ws)) = snd (step s (DbIter p st))
+  /\ s_db (fst (step s (DbIterDuring p st ws))) = apply_ops ws (s_db s)
+  /\ s_b0 (fst (step s (DbIterDuring p st ws))) = s_b0 s /\ s_b1 (fst (step s (DbIterDuring p st ws))) = s_b1 s.
+Proof. exact iterator_is_snapshot. Qed.
+Print Assumptions iterator_snapshot.
+
+Theorem compaction_invisible : forall s, step s DbCompact = (s, ONone).
+Proof. exact compact_is_invisible. Qed.
+Print Assumptions compaction_invisible.
+
 (* Consequently: two backends whose observations match the model on a history match each other. *)
 Theorem chain_state_backend_independent : forall h o1 o2,
   outs_eqb (run init h) o1 = true -> outs_eqb (run init h) o2 = true -> outs_eqb o1 o2 = true.
